@@ -20,6 +20,7 @@ type PropConfig struct {
 	Packages  []string `json:"packages"`
 	Verify    []string `json:"verify"`   // pkgpath::func or pkgpath::* ; contracts + safety obligations
 	Exclude   []string `json:"exclude"`  // pkgpath::func excluded from ::* expansion
+	VerifyFiles []string `json:"verify_files"` // repo-relative files: every function declared in them
 	NilCheck  []string `json:"nilcheck"` // functions (keys) whose nil dereferences are also obligations
 	MinObligations int `json:"min_obligations"`
 	Assumptions []string `json:"assumptions"`
@@ -158,6 +159,32 @@ func runCheck(repo, verif, prop, tier string, seed int) int {
 			targets = append(targets, target{v, f})
 		}
 	}
+	for _, vf := range pc.VerifyFiles {
+		found := false
+		for path := range eng.ssaPkg {
+			if !isRepoPath(path) {
+				continue
+			}
+			for _, f := range eng.AllFuncs(path) {
+				pos := eng.fset.Position(f.Pos())
+				if !strings.HasSuffix(pos.Filename, "/"+vf) {
+					continue
+				}
+				found = true
+				_, rel := eng.fnKey(f)
+				k := path + "::" + rel
+				if excl[k] || seen[f] {
+					continue
+				}
+				seen[f] = true
+				targets = append(targets, target{k, f})
+			}
+		}
+		if !found {
+			missing = append(missing, "file "+vf)
+		}
+	}
+	sort.SliceStable(targets, func(i, j int) bool { return targets[i].key < targets[j].key })
 	// every contract in the loaded packages whose function no longer exists is an error, not a silent skip
 	scfg := SolverCfg{QuickTimeoutMs: 3000, RaceTimeoutS: 20, OutDir: filepath.Join(verif, "replays", prop, "smt"), Seed: seed}
 	if tier == "thorough" {
